@@ -523,6 +523,58 @@ register(ChunkRange, 'loader.py::SgzLoader3d.read_and_decompress_chunk_range', [
 register(ChunkRangeST, 'loader.py::SgzLoader3d.read_and_decompress_chunk_range', ['C02', 'C07', 'C17'], CFG_DEFAULT, modes=('file', 'preload'), tag='st')
 
 
+class ChunkRangeHistory(ChunkRange):
+    """C15 (history independence) for the multithreaded sub-volume read: the loader is built by executing its REAL __init__ (not the
+    fabricated state the other variants start from), the method is called, and then called AGAIN on the same object with other
+    arguments: the second call returns its own box of the decoded volume as well (no state left behind by the first read -- a pool,
+    a handle, a buffer -- changes or prevents a later one)"""
+    def inputs(self, c):
+        from pyvc.values import SObj
+        prog, interp = c.ex.prog, c.ex.interp
+        g = O.mk_geo(c, layout=self.layout, two_d=False, cfg=self.cfg)
+        f = O.new_input_file(c, local=True, prog=prog)
+        me = SObj(prog.klass('SgzLoader3d'), {})
+        from pyvc.values import PyRaise
+        from pyvc.smt import CutPath
+        try:
+            interp.inline(prog.function('loader.py::SgzLoader.__init__'),
+                          [f, g.data_start, g.diskblocks, g.P, g.b, mul(BLK, g.G[2]), BLK, g.ub, g.rate, True, self.preload], {}, me)
+        except PyRaise:
+            raise CutPath()          # preload refused for lack of memory (environment): no loader, nothing to read
+        c.ghost['reads'] = []        # the I/O obligations below are about the reads of the CALLS, not the preload at construction
+        me.geo = g
+        d = dict(self=me, _g=g, multithreading=True)
+        for nm in self.NAMES:
+            d[nm] = c.sym_int(nm, name=nm)
+        return d
+
+    def post(self, c, a, result):
+        ChunkRange.post(self, c, a, result)
+        from pyvc.values import PyRaise
+        g = geo_of(a)
+        b = dict(self=a['self'], _g=g)
+        for nm in self.NAMES:
+            b[nm] = c.sym_int(nm + '_2', name='second_call.' + nm)
+        c.assume(*self.pre(c, b))
+        try:
+            r2 = c.ex.interp.inline(c.ex.prog.function(self.key), [], dict({nm: b[nm] for nm in self.NAMES}, multithreading=True), a['self'])
+        except PyRaise as e:
+            c.ensure(False, f'history.second_read_on_the_same_loader_raises_{e.cls}')
+            return
+        units = [sub(fdiv(add(b[hi], 3), 4), fdiv(b[lo], 4)) for lo, hi in (('min_il', 'max_il'), ('min_xl', 'max_xl'), ('min_z', 'max_z'))]
+        shp = tuple(mul(4, u) for u in units)
+        ok = isinstance(r2, SArray) and len(r2.shape) == 3
+        c.ensure(mk_bool(ok), 'history.second_read_returns_an_array')
+        if ok:
+            c.ensure(And(*[eq(r2.shape[k], shp[k]) for k in range(3)]), 'history.second_read_shape')
+            e = O.skolem_index(c, shp, base='e2')
+            base = [mul(4, fdiv(b[lo], 4)) for lo in ('min_il', 'min_xl', 'min_z')]
+            c.ensure(r2.fn(e) == O.Vpad(g, add(base[0], e[0]), add(base[1], e[1]), add(base[2], e[2])), 'history.second_read_elem')
+
+
+register(ChunkRangeHistory, 'loader.py::SgzLoader3d.read_and_decompress_chunk_range', ['C15'], [CFG_DEFAULT[3]], modes=('file', 'preload'), tag='history')
+
+
 # ---- z-slice layout (N,M,4) ------------------------------------------------------------------------
 
 def _adv_bi(q, env):
